@@ -24,23 +24,32 @@ def stream_public_stitch(ctx):
     saved = S._get_default_salt
     S._get_default_salt = lambda: b"12345678"
     try:
-        for _ in range(ctx.scale(6, 60)):
+        for _ in range(ctx.scale(10, 80)):
             L, Rn = R.choice([(1, 1), (1, 6), (8, 8), (20, 25), (40, 12), (5, 60)])
             nshared = R.choice([1, 2])
             sh = [f"s{i}" for i in range(nshared)]
             lp = [f"l{i}" for i in range(R.randint(0, 2))]; rp = [f"r{i}" for i in range(R.randint(1, 2))]
-            kinds = {c: R.choice(["int", "str", "float"]) for c in sh}
+            numeric = R.random() < 0.4      # an all-numeric pair of tables with 64-bit identifiers beyond 2**53 in the private columns
+            kinds = {c: R.choice(["int", "float"] if numeric else ["int", "str", "float"]) for c in sh}
+            if numeric and "float" not in kinds.values():
+                kinds[sh[0]] = "float"
 
             def shared_val(c):
                 v = R.randint(0, 6)
                 return v if kinds[c] == "int" else (f"v{v}" if kinds[c] == "str" else v + 0.5)
-            dl = {c: [shared_val(c) for _ in range(L)] for c in sh}; dl.update({c: [10000 * (k + 1) + i for i in range(L)] for k, c in enumerate(lp)})
-            dr = {c: [shared_val(c) for _ in range(Rn)] for c in sh}; dr.update({c: [f"{c}-{i}" for i in range(Rn)] for c in rp})
+            lbase = 2 ** 60 + 1 if numeric else 0
+            dl = {c: [shared_val(c) for _ in range(L)] for c in sh}; dl.update({c: [lbase + 10000 * (k + 1) + i for i in range(L)] for k, c in enumerate(lp)})
+            dr = {c: [shared_val(c) for _ in range(Rn)] for c in sh}
+            if numeric:
+                rnum = {c: {2 ** 61 + 1 + (k << 20) + 3 * i: i for i in range(Rn)} for k, c in enumerate(rp)}
+                dr.update({c: list(rnum[c]) for c in rp})
+            else:
+                dr.update({c: [f"{c}-{i}" for i in range(Rn)] for c in rp})
             cl = list(dl); R.shuffle(cl); cr = list(dr); R.shuffle(cr)
             dfl, dfr = pd.DataFrame(dl)[cl], pd.DataFrame(dr)[cr]
             shared = R.random() < 0.6
             out = stitch(dfl, dfr, shared=shared)
-            case = {"L": L, "R": Rn, "shared": shared, "left_columns": cl, "right_columns": cr}
+            case = {"L": L, "R": Rn, "shared": shared, "left_columns": cl, "right_columns": cr, "all_numeric": numeric}
             St.count((dfl.values.tobytes() if False else repr(dl), repr(dr), shared, tuple(cl), tuple(cr)), L >= 2 and Rn >= 2, dict(case, result_rows=len(out)))
             if sorted(out.columns) != sorted(set(cl) | set(cr)):
                 ctx.oracle_fail(f"stitch(): columns {list(out.columns)} are not the union {sorted(set(cl)|set(cr))}", case, "api-columns"); continue
@@ -48,19 +57,24 @@ def stream_public_stitch(ctx):
             lrows = {tuple(dfl.loc[i, lp]) if lp else i: i for i in range(L)}
             used = []
             for k in range(n):
-                row = out.iloc[k]
+                row = {c: out[c].iloc[k] for c in out.columns}       # per column: a row Series would upcast integers next to floats
                 li = None
                 if lp:
-                    key = tuple(row[lp]); li = lrows.get(key)
+                    key = tuple(row[c] for c in lp); li = lrows.get(key)
                     if li is None:
                         ctx.oracle_fail(f"stitch(): result row {k} private left cells {key} are not those of one actual left row", case, "api-real-rows"); break
                     used.append(li)
                 ri = None
                 for c in rp:
                     v = row[c]
-                    if not isinstance(v, str) or not v.startswith(c + "-") or int(v.split("-")[1]) >= Rn:
-                        ctx.oracle_fail(f"stitch(): result row {k} cell {v!r} under right column {c} is not a cell of that column", case, "api-real-rows"); break
-                    j = int(v.split("-")[1])
+                    if numeric:
+                        if not isinstance(v, (int, np.integer)) or int(v) not in rnum[c]:
+                            ctx.oracle_fail(f"stitch(): result row {k} cell {v!r} under right column {c} is not a cell of that column", case, "api-real-rows"); break
+                        j = rnum[c][int(v)]
+                    else:
+                        if not isinstance(v, str) or not v.startswith(c + "-") or int(v.split("-")[1]) >= Rn:
+                            ctx.oracle_fail(f"stitch(): result row {k} cell {v!r} under right column {c} is not a cell of that column", case, "api-real-rows"); break
+                        j = int(v.split("-")[1])
                     if ri not in (None, j):
                         ctx.oracle_fail(f"stitch(): result row {k} mixes right rows {ri} and {j}", case, "api-real-rows"); break
                     ri = j
